@@ -57,7 +57,13 @@ def factor_list(draw, lo=1):
 
 @st.composite
 def case_strategy(draw):
-    kind = draw(st.integers(0, 9))
+    kind = draw(st.integers(0, 10))
+    if kind == 10:
+        # the same literal factors on both sides (every constant is used twice): quotient 1, all constants, assembled
+        n = draw(st.integers(3, 6))
+        nums = draw(st.lists(st.one_of(st.integers(1, 127), st.integers(128, 5000), st.sampled_from([2**20, 2**16 + 1])), min_size=n, max_size=n, unique=True))
+        dens = list(draw(st.permutations(nums)))
+        return {"nums": [str(x) for x in nums], "dens": [str(x) for x in dens], "place": "c" * (2 * n), "version": draw(st.integers(5, 10)), "assemble": draw(st.sampled_from([True, True, False]))}
     if kind <= 1:
         # quotient boundary: N = q*d (+r) with q around 2**64
         d = draw(st.one_of(st.integers(1, 2**20), st.integers(1, M64)))
